@@ -163,7 +163,9 @@ func runTestCasesForServer(
 			for j := i; j < len(testCases); j++ {
 				results.setOutcome(testCases[j].Request.TestName, true, err)
 			}
-			return
+			// Don't return: requests already sent must still be awaited below, so
+			// that every test case has an outcome when this function ends.
+			break
 		}
 		req := proto.Clone(testCase.Request).(*conformancev1.ClientCompatRequest) //nolint:errcheck,forcetypeassert
 		req.Host = resp.Host
